@@ -1,0 +1,19 @@
+//go:build verif
+
+// Contracts for the govc verifier (/verif). Comment-only; compiled only with -tags verif.
+
+package docfilter
+
+//@ func (*RelevantElements).Process(doc)
+//@   requires doc != nil
+//@   requires forall(i, 0 <= i && i < len(doc.Elements), isobj(doc.Elements[i]))
+//@   requires forall(i, j, 0 <= i && i < j && j < len(doc.Elements), doc.Elements[i] != doc.Elements[j])
+//@   requires [C08] forall(i, 0 <= i && i < len(doc.Elements), typeis(doc.Elements[i], *webdoc.Text) || !doc.Elements[i].IsContent())
+//@   ensures  [C08] #retained-iff-follows-retained-text forall(i, 0 <= i && i < len(doc.Elements),
+//@              doc.Elements[i].IsContent() == (old(doc.Elements[i].IsContent()) ||
+//@                 (!typeis(doc.Elements[i], *webdoc.Text) && inRun(doc.Elements, i))))
+//@   ensures  [C08] #elements-unchanged len(doc.Elements) == old(len(doc.Elements)) && forall(i, 0 <= i && i < len(doc.Elements), doc.Elements[i] == old(doc.Elements[i]))
+//@   loop 0 invariant inContent == inRun(doc.Elements, ITER)
+//@   loop 0 invariant forall(j, 0 <= j && j < ITER, doc.Elements[j].IsContent() == (old(doc.Elements[j].IsContent()) ||
+//@                 (!typeis(doc.Elements[j], *webdoc.Text) && inRun(doc.Elements, j))))
+//@   loop 0 invariant forall(j, ITER <= j && j < len(doc.Elements), doc.Elements[j].IsContent() == old(doc.Elements[j].IsContent()))
